@@ -29,11 +29,26 @@ func fieldWhere(n *types.Named, prefer string, pred func(v *types.Var) bool) *ty
 		return nil
 	}
 	var cands []*types.Var
-	for i := 0; i < st.NumFields(); i++ {
-		if pred(st.Field(i)) {
-			cands = append(cands, st.Field(i))
+	// direct fields and the fields promoted from embedded structs (a configuration struct embedded in WAL, say)
+	var collect func(st *types.Struct, depth int)
+	collect = func(st *types.Struct, depth int) {
+		for i := 0; i < st.NumFields(); i++ {
+			f := st.Field(i)
+			if pred(f) {
+				cands = append(cands, f)
+			}
+			if f.Embedded() && depth < 2 {
+				t := f.Type()
+				if pt, ok := t.(*types.Pointer); ok {
+					t = pt.Elem()
+				}
+				if inner, ok := t.Underlying().(*types.Struct); ok {
+					collect(inner, depth+1)
+				}
+			}
 		}
 	}
+	collect(st, 0)
 	if len(cands) == 1 {
 		return cands[0]
 	}
